@@ -12,7 +12,8 @@ PROPS = {
     "C01": {
         "level": "exploration",
         "tests": [T("TestC01Converge", "fleet", 1200, 128000, shards=16, qshards=4),
-                  T("TestC01OrderIndependent", "fleet", 600, 64000, shards=16, qshards=4)],
+                  T("TestC01OrderIndependent", "fleet", 600, 64000, shards=16, qshards=4),
+                  T("TestC01Dup", "kv", 400, 48000, shards=16, qshards=4)],
         "assumptions": [
             "tomb sweeper disabled (as the property states)",
             "native mode: an application overwrite is stamped strictly later than the version it overwrites (shared monotone clock); equal timestamps arise between instances that have not seen each other's versions",
@@ -87,7 +88,7 @@ PROPS = {
             "a deleted version has an empty value (documented MUST for applications)",
             "with a non-zero stale-marker cutoff the join is not commutative by design; order relations are asserted only over version sets without stale markers",
             "version-1 snapshots have no deleted flag: their empty-value deletions are not subject to the stale-marker clause",
-            "the default-timestamp use (shadow capture) has a default strictly greater than every stored timestamp",
+            "the default-timestamp use (shadow capture): the default may be later than, equal to or earlier than the stored timestamp (start-up capture with timestamp 1, peer clocks ahead); only the single-step clauses apply to it, no order relations",
         ],
     },
     "C05": {
@@ -149,7 +150,8 @@ PROPS = {
     },
     "C11": {
         "level": "exploration",
-        "tests": [T("TestC11Mirror", "kv", 4000, 1920000, shards=16)],
+        "tests": [T("TestC11Mirror", "kv", 4000, 1920000, shards=16),
+                  T("TestC11Contended", "kv", 160, 16000, shards=16, qshards=8)],
         "known_tests": [T("TestKnownC11", "kv", 1, 1)],
         "assumptions": [
             "steady state: every step runs with the syncer's own bookkeeping of the last synced transaction id (changes made while the syncer is down are documented to be treated differently)",
@@ -163,6 +165,7 @@ PROPS = {
         "tests": [
             T("TestC12Cleaner", "recv", 20000, 16000000, shards=16),
             T("TestC12ReceiveOnly", "fleet", 60, 6000, shards=8, qshards=2, procs=4),
+            T("TestC12Wired", "fleet", 1500, 160000, shards=16, qshards=4),
         ],
         "assumptions": [
             "names of one instance appear in timestamp order and never re-appear after deletion (the property's stated domain)",
